@@ -85,4 +85,61 @@ def unaryBody (raised overCap : Bool) : Carried :=
     (if unaryBudgetOnlyOnSuccess then .implError else if overCap then .capError else .implError)
   else if overCap then .capError else .result
 
+/-! ## One `process()` call at operation level (`OutputCollector`, rpc/_types.py)
+
+A step may emit its data batch, log and fail in ANY order.  The collector keeps one ordered batch list and the index of
+the data batch; when the call fails the server writes `log_batches` (as extracted: every batch whose index is not the data
+batch's index) and then the error batch — never the data batch of the failed call. -/
+
+inductive Op where
+  | log (l : VgiVerif.Engine.Log)
+  | emit (b : VgiVerif.Engine.Batch)
+  | finish
+  | raise (e : VgiVerif.Engine.Exn)
+deriving Repr, DecidableEq
+
+open VgiVerif.Engine (Item Exn logItems noDataExn finishOnExchangeExn) in
+structure Coll where
+  batches : List Item
+  dataIdx : Option Nat
+  finished : Bool
+deriving Repr
+
+def onlyOneDataExn : VgiVerif.Engine.Exn :=
+  ⟨"RuntimeError".toList, "Only one data batch may be emitted per call".toList, none⟩
+
+open VgiVerif.Engine in
+/-- run the operations of one call up to the first exception (the implementation's `raise`, or the collector's own:
+a second `emit`, `finish()` on an exchange stream) -/
+def runOps (producerMode : Bool) : Coll → List Op → Coll × Option Exn
+  | c, [] => (c, none)
+  | c, .log l :: r => runOps producerMode ⟨c.batches ++ [.log l], c.dataIdx, c.finished⟩ r
+  | c, .emit b :: r =>
+    match c.dataIdx with
+    | some _ => (c, some onlyOneDataExn)
+    | none => runOps producerMode ⟨c.batches ++ [.data b], some c.batches.length, c.finished⟩ r
+  | c, .finish :: r =>
+    if producerMode then runOps producerMode ⟨c.batches, c.dataIdx, true⟩ r else (c, some finishOnExchangeExn)
+  | c, .raise e :: _ => (c, some e)
+
+open VgiVerif.Engine in
+/-- `[ab for i, ab in enumerate(self._batches) if i != self._data_batch_idx]` -/
+def filterIdx (idx : Option Nat) : Nat → List Item → List Item
+  | _, [] => []
+  | i, x :: r => if some i = idx then filterIdx idx (i + 1) r else x :: filterIdx idx (i + 1) r
+
+open VgiVerif.Engine in
+/-- `OutputCollector.log_batches` — the comprehension above when the extractor recognised it, otherwise unknown code,
+modelled pessimistically as "everything" -/
+def logBatches (c : Coll) : List Item :=
+  if VgiVerif.Gen.LogDispatch.flushLogsHelperRecognised then filterIdx c.dataIdx 0 c.batches else c.batches
+
+open VgiVerif.Engine in
+/-- what the server writes for the call, and whether the call failed -/
+def stepWrites (producerMode : Bool) (ops : List Op) : List Item × Bool :=
+  match runOps producerMode ⟨[], none, false⟩ ops with
+  | (c, some e) => (logBatches c ++ [.err e], true)
+  | (c, none) =>
+    if !c.finished && c.dataIdx.isNone then (logBatches c ++ [.err noDataExn], true) else (c.batches, false)
+
 end VgiVerif.C07
